@@ -92,6 +92,13 @@ def spell_radius(r_km, unit, style=0):
         txt = "  %.17g   %s " % (num, unit)
     elif style == 3:
         txt = "%.16e %s" % (num, unit)
+    elif style in (5, 6) and num > 0:
+        # a number that starts with its decimal point: ".5 km", ".25e3m"
+        mant, exp = ("%.16e" % num).split("e")
+        digits = mant.replace(".", "").rstrip("0") or "0"
+        e10 = int(exp) + 1
+        body = "." + digits + ("e%d" % e10 if e10 else "")
+        txt = body + (" " if style == 5 else "") + unit
     else:
         txt = "+%r %s" % (num, unit)
     return txt
